@@ -826,6 +826,19 @@ def check(ctx):
         for h in hs[-200:]:
             refused += sum(1 for o in reference(h) if o == "bad-op")
         ctx.cov["refused_lines_in_last_200_random_histories"] = f"{refused} of {sum(len(h) for h in hs[-200:])}"
+        # which (left type, right type) pairs of operator== and which to*() source types the run evaluates (value store replay)
+        pairs, types_seen = set(), set()
+        for h in hs[::max(1, len(hs) // 1500)]:
+            st = Store()
+            for l in h:
+                if st.apply(l):
+                    ts = [TYPE_NO[x[0]] for x in st.v]
+                    types_seen.update(ts)
+                    pairs.update((a, b) for a in ts for b in ts)
+        ctx.cov["eq_type_pairs_hit"] = f"{len(pairs)} of 121 (top-level operands; sample of {len(hs[::max(1, len(hs) // 1500)])} histories)"
+        missing = sorted((a, b) for a in range(11) for b in range(11) if (a, b) not in pairs)
+        ctx.cov["eq_type_pairs_missing"] = [f"{a}=={b}" for a, b in missing][:40]
+        ctx.cov["coercion_source_types_hit"] = sorted(types_seen)
         ctx.cov["samples"] = [" ; ".join(h) for h in (hs[-3:] + hs[len(hs) // 2: len(hs) // 2 + 2])]
         diffs = C.differential(ctx, harness, C.driver_path(DRIVER), hs, reference, line_eq, nontrivial=nontrivial)
         ctx.log(f"{len(hs)} histories, {ctx.cov['evaluations']} op lines, {len(diffs)} disagreement(s)")
